@@ -19,6 +19,7 @@ import (
 	"fmt"
 	"io"
 	"net/http"
+	"os"
 	"sort"
 	"strings"
 	"sync"
@@ -180,6 +181,7 @@ type e2eStream struct {
 	log      []e2eEntry
 	bodies   int // SSE bodies so far
 	attempts int // reconnect attempts so far
+	closes   int // times the call's handler closed its own SSE stream (RequestExtra.CloseSSEStream)
 }
 
 type e2eWorld struct {
@@ -195,12 +197,10 @@ type e2eWorld struct {
 	anomalies   []string              // non-2xx answers the script did not ask for
 	unknownLEI  int
 	serverClose int
-	active      int // tool handlers running now
 
 	emitted []string       // payloads in emission order (recorded by the tool handler just before notifying)
 	emitIdx map[string]int // payload -> position in emitted
 	seen    []string       // payloads in the order the client's handlers saw them
-	garbled []string
 }
 
 func (w *e2eWorld) emit(p string) {
@@ -263,7 +263,6 @@ type cutWriter struct {
 	body    *e2eBody
 	status  int
 	events  int
-	writes  int
 	dead    bool
 }
 
@@ -340,7 +339,6 @@ func (c *cutWriter) Write(p []byte) (int, error) {
 		return len(p), nil
 	}
 	cut := c.body.cut
-	c.writes++
 	isEvent := len(memhttp.ParseSSE(p)) > 0 // the SDK writes one whole event per Write
 	if isEvent && c.events == cut.Events && (!cut.Eager || cut.Events == 0) {
 		k := 0
@@ -496,14 +494,6 @@ func runE2EInBubble(s E2EScript, closedBoth *bool) (res vt.Result) {
 			return nil, nil, fmt.Errorf("no such call %d", k)
 		}
 		c := s.Calls[k]
-		w.mu.Lock()
-		w.active++
-		w.mu.Unlock()
-		defer func() {
-			w.mu.Lock()
-			w.active--
-			w.mu.Unlock()
-		}()
 		notify := func(ctx context.Context, payload string, seq int) {
 			w.emit(payload)
 			if c.Log {
@@ -525,6 +515,7 @@ func runE2EInBubble(s E2EScript, closedBoth *bool) (res vt.Result) {
 			if c.CloseAfter == i && req.Extra != nil && req.Extra.CloseSSEStream != nil {
 				w.mu.Lock()
 				w.serverClose++
+				w.calls[k].closes++
 				w.mu.Unlock()
 				req.Extra.CloseSSEStream(mcp.CloseSSEStreamArgs{RetryAfter: time.Duration(c.CloseRetryMs) * time.Millisecond})
 			}
@@ -730,6 +721,7 @@ func analyseE2E(st *e2eStream, budget int, respMatch func(data string) bool) e2e
 		}
 	}
 	pendingNT := false
+	closeLeft := st.closes
 	for _, e := range st.log {
 		switch e.kind {
 		case "neterr", "503":
@@ -765,9 +757,14 @@ func analyseE2E(st *e2eStream, budget int, respMatch func(data string) bool) e2e
 				a.complete = true
 				return a
 			}
-			ended := b.fired || st.call >= 0 // a call's body without the response has ended early (cut, or closed by the handler)
-			if !ended {
-				continue
+			// Only interruptions the script caused use up the budget: a cut that took effect, or the
+			// handler closing its own stream. A correct server never ends a call's body by itself before
+			// the response, so a body that simply ended (or is still open) excuses nothing.
+			if !b.fired {
+				if st.call < 0 || closeLeft == 0 {
+					continue
+				}
+				closeLeft--
 			}
 			if b.fired && len(evs) >= 1 && (st.call >= 0 || !b.cut.Eager) {
 				pendingNT = true // the event that triggered the cut, or at least the response, is still to come
@@ -932,6 +929,13 @@ func judgeE2E(res *vt.Result, s E2EScript, w *e2eWorld, results []e2eCallRes, tr
 		}
 	}
 
+	if os.Getenv("C09_DEBUG") != "" {
+		fmt.Printf("DEBUG budget=%d allInBudget=%v anomalies=%v seen=%q\n", budget, allInBudget, w.anomalies, w.seen)
+		for k := range s.Calls {
+			fmt.Printf("DEBUG call %d: returned=%v err=%v text=%q complete=%v resumable=%v inBudget=%v %s\n", k, results[k].returned, results[k].err, results[k].text, an[k].complete, an[k].resumable, an[k].inBudget, describeE2E(w.calls[k]))
+		}
+		fmt.Printf("DEBUG %s\n", describeE2E(w.standalone))
+	}
 	// ---- statistics ----
 	nt := false
 	resumes, fired, neterr, s503 := sa.resumes, 0, 0, 0
